@@ -1,4 +1,5 @@
 import NLE.Proofs.LifeInv
+import NLE.Gen.Shape
 /-!
 # C09 — Stop is final (lifecycle clauses)
 
@@ -66,5 +67,17 @@ theorem no_promotion_while_stopped {x x' : Inst} {e : Ev} (_inv : LInv x) (hnr :
 theorem stopped_state {x : Inst} (inv : LInv x) (hs : x.everStopped = true) (hp : x.pendingFlag = none)
     (hc : x.stopPendingTrans = false) : x.state = 5 ∧ x.flag = false ∧ x.running = false :=
   ⟨(inv.stopped hs hc hp).1, (inv.stopped hs hc hp).2, inv.stopNotRunning hs⟩
+
+/-- AST facts: `becomeLeader` refuses when the election is stopped; `becomeFollower` keeps STOPPED after a stop;
+    `StopWithContext` deletes only for an owner (or a record acquired while stopping); the only `go` statements not
+    tracked by the WaitGroup are the stop calls' own helpers, the heartbeat's Update and the validation's Get
+    sub-goroutines (which only finish an operation already in flight) and the adapters' forwarders. -/
+theorem shape :
+    Gen.becomeLeaderRefusesWhenStopped = true ∧ Gen.becomeFollowerKeepsStopped = true ∧
+    Gen.deleteOnlyForOwnerOrAcquired = true ∧
+    Gen.untrackedGo = ["MockWatcherAdapter.Updates", "StartEmbeddedNATSServer", "StartEmbeddedNATSServer", "kvElection.Stop",
+      "kvElection.StopWithContext", "kvElection.StopWithContext", "kvElection.StopWithContext", "kvElection.StopWithContext",
+      "kvElection.heartbeatLoop", "kvElection.validateToken", "natsWatcherAdapter.Updates"] := by decide
+
 
 end NLE.Theorems.C09
